@@ -1,6 +1,7 @@
 // Package vhook replaces olareg.New inside cmd/olareg/serve.go (by the same source
 // redirection that maps os to vos): it captures the configuration built from the
-// flags and stops the command before any listener is started.
+// flags and either stops the command before any listener is started (default) or, with
+// Continue set, builds the real server and lets the command go on.
 package vhook
 
 import (
@@ -14,9 +15,26 @@ type Stop struct{}
 // Captured is the configuration handed to olareg.New.
 var Captured *config.Config
 
-// New captures conf and stops.
+// Continue makes New build the real server instead of stopping.
+var Continue bool
+
+// Adjust, when set, edits the captured configuration before the server is built
+// (the harness points the store at the model file system).
+var Adjust func(*config.Config)
+
+// Server is the server built in Continue mode.
+var Server *olareg.Server
+
+// New captures conf and stops, or builds the server.
 func New(conf config.Config) *olareg.Server {
 	c := conf
 	Captured = &c
-	panic(Stop{})
+	if !Continue {
+		panic(Stop{})
+	}
+	if Adjust != nil {
+		Adjust(&conf)
+	}
+	Server = olareg.New(conf)
+	return Server
 }
